@@ -145,6 +145,18 @@ func (h *pathHelper) stripParametersInPath(path string) string {
 	return strings.Join(strippedSegments, "/")
 }
 
+func (h *pathHelper) anonymizeParametersInPath(path string) string {
+	// Returns a path in which every path parameter is replaced by "{}", on the same
+	// slash-separated basis as stripParametersInPath. Unlike the "X" used there, "{}" cannot be
+	// mistaken for a literal segment of a valid path (an empty parameter is an error of its own).
+	rexParsePathParam := mustCompileRegexp(`{[^{}]+?}`)
+	segments := strings.Split(path, "/")
+	for i, segment := range segments {
+		segments[i] = rexParsePathParam.ReplaceAllString(segment, "{}")
+	}
+	return strings.Join(segments, "/")
+}
+
 func (h *pathHelper) extractPathParams(path string) (params []string) {
 	// Extracts all params from a path, with surrounding "{}"
 	rexParsePathParam := mustCompileRegexp(`{[^{}]+?}`)
